@@ -104,6 +104,9 @@ def install(reg):
         return [(st, V(IterT(), V(lt, L)))]
     @M('list')
     def _list(e, st, args, kw, node):
+        if getattr(reg, 'dyn', False) and getattr(getattr(reg, 'current_unit', None), 'dyn_literals', True):
+            from . import dyn
+            return [(st, dyn.fresh('list'))]
         if not args: return [(st, e.alloc(st, ListT(ANY), None))]
         out = []
         for x, lv in e.to_list(st, args[0], node):
@@ -122,6 +125,9 @@ def install(reg):
         return out
     @M('set', 'frozenset')
     def _set(e, st, args, kw, node):
+        if getattr(reg, 'dyn', False) and getattr(getattr(reg, 'current_unit', None), 'dyn_literals', True):
+            from . import dyn
+            return [(st, dyn.fresh('set'))]
         if not args: return [(st, e.alloc(st, SetT(ANY), None))]
         a = args[0]
         if isinstance(a.t, SetT): return [(st, e.alloc(st, a.t, e.deref(st, a)))]
@@ -140,6 +146,9 @@ def install(reg):
         return out
     @M('dict')
     def _dict(e, st, args, kw, node):
+        if getattr(reg, 'dyn', False) and getattr(getattr(reg, 'current_unit', None), 'dyn_literals', True):
+            from . import dyn
+            return [(st, dyn.fresh('dict'))]
         if not args and not kw: return [(st, e.alloc(st, DictT(ANY, ANY), None))]
         if len(args) == 1 and isinstance(args[0].t, DictT): return [(st, e.alloc(st, args[0].t, e.deref(st, args[0])))]
         return None
